@@ -837,7 +837,8 @@ def apply_rules(text, rules, ed, base=0, regex_map=None):
                 raise LexError("format! arguments do not match its placeholders")
             ed.replace(base + t.start, base + st[e].end, "R9", "({ let mut vf_ = vf_new(); " + body + " vf_ })")
             i = e
-        elif "R9" in rules and is_id(t, "write") and i + 2 < n and is_p(st[i + 1], "!") and is_p(st[i + 2], "("):
+        elif "R9" in rules and is_id(t, "write") and i + 2 < n and is_p(st[i + 1], "!") and is_p(st[i + 2], "(") \
+                and (("R12" not in rules) or (lambda e_: e_ + 2 < n and is_p(st[e_ + 1], ".") and is_id(st[e_ + 2], "unwrap"))(match_close(st, i + 2))):
             # write!(SINK, LIT, args..).unwrap() on a Vec<u8> sink (infallible): the pieces appended one by one
             e = match_close(st, i + 2)
             args = _split_args(st, i + 2, e)
